@@ -338,10 +338,11 @@ class BaseSection(base.Sectionable):
             self._parent.remove(self)
             self._parent = None
         elif self._validate_parent(new_parent):
-            if self._parent is not None:
+            if self._parent is new_parent:
                 self._parent.remove(self)
-            self._parent = new_parent
-            self._parent.append(self)
+            # append moves the object from its previous parent and does
+            # not change anything, if the new parent refuses the object.
+            new_parent.append(self)
         else:
             raise ValueError(
                 "odml.Section.parent: passed value is not of consistent type!"
@@ -517,10 +518,18 @@ class BaseSection(base.Sectionable):
         :param obj: Section or Property object.
         """
         if isinstance(obj, BaseSection):
+            old_parent = obj._parent
             self._sections.append(obj)
+            # If required remove the object from its previous parent,
+            # an object must never be a child of two parents.
+            if old_parent is not None:
+                old_parent.remove(obj)
             obj._parent = self
         elif isinstance(obj, BaseProperty):
+            old_parent = obj._parent
             self._props.append(obj)
+            if old_parent is not None:
+                old_parent.remove(obj)
             obj._parent = self
         elif isinstance(obj, Iterable) and not isinstance(obj, str):
             raise ValueError("odml.Section.append: "
@@ -570,12 +579,20 @@ class BaseSection(base.Sectionable):
                 raise ValueError("odml.Section.insert: "
                                  "Section with name '%s' already exists." % obj.name)
 
+            # If required remove the object from its previous parent first,
+            # an object must never be a child of two parents.
+            if obj._parent is not None:
+                obj._parent.remove(obj)
+
             self._sections.insert(position, obj)
             obj._parent = self
         elif isinstance(obj, BaseProperty):
             if obj.name in self.properties:
                 raise ValueError("odml.Section.insert: "
                                  "Property with name '%s' already exists." % obj.name)
+
+            if obj._parent is not None:
+                obj._parent.remove(obj)
 
             self._props.insert(position, obj)
             obj._parent = self
